@@ -457,7 +457,8 @@ cJSON *change_password(const struct peer *p, const cJSON *request, const char *u
 		}
 
 		char *encrypted = crypt(passwd, salt);
-		if (encrypted == NULL) {
+		/* A failing crypt() either returns NULL or a failure token starting with '*', which is never a valid hash. */
+		if ((encrypted == NULL) || (encrypted[0] == '*')) {
 			response = create_error_response_from_request(p, request, INVALID_PARAMS, "reason", "could not encrypt password");
 			goto out;
 		}
